@@ -236,10 +236,13 @@ class Corr:
         self.disagreements = []
         self.evaluations = 0
 
-    def add(self, line, impl_answer, meta=None, nontrivial=False, branch=None):
+    def add(self, line, impl_answer, meta=None, nontrivial=False, branch=None, compare=None):
         self.lines.append(line)
         self.impl.append(impl_answer)
         self.meta.append(meta)
+        if compare is not None:
+            self.compare = getattr(self, "compare", {})
+            self.compare[len(self.lines) - 1] = compare
         if nontrivial:
             self.nontrivial.add(line)
         if branch is not None:
@@ -248,8 +251,10 @@ class Corr:
     def run(self):
         answers = run_driver(self.lines)
         self.evaluations = len(self.lines)
-        for line, a, b, m in zip(self.lines, answers, self.impl, self.meta):
-            if a != b:
+        cmps = getattr(self, "compare", {})
+        for i, (line, a, b, m) in enumerate(zip(self.lines, answers, self.impl, self.meta)):
+            ok = cmps[i](a, b) if i in cmps else (a == b)
+            if not ok:
                 self.disagreements.append(dict(request=line, model=a, impl=b, meta=m))
         return self.disagreements
 
